@@ -598,7 +598,68 @@ def op_order(c):
     return {"prime": mask(prime, ids), "after": mask(after, ids), "fresh": mask(ref, ids)}
 
 
-OPS = {"order": op_order, "registry": op_registry, "probe": op_probe, "detect": op_detect, "pick": op_pick,
+def op_mixed(c):
+    """One store holding library output of BOTH versions in different type directories, read back without a
+    version through queries that span several types: every object must come back as the class it was serialised from."""
+    want, texts = {}, {}
+    for it in c["items"]:
+        try:
+            o = stix2.parse(it["data"], version=it["version"])
+        except Exception:  # noqa: BLE001 -- not buildable: not part of the store
+            continue
+        if not isinstance(o, _STIXBase) or "id" not in o:
+            continue
+        js = json.loads(o.serialize())
+        if js["type"] in [t["type"] for t in texts.values()]:
+            continue
+        want[js["id"]] = clsname(type(o))
+        texts[js["id"]] = js
+    if len(want) < 2:
+        return {"built": len(want), "want": want, "got": {}}
+    root = fresh_dir()
+    for js in texts.values():
+        write_fs(js, root)
+    types = sorted({js["type"] for js in texts.values()})
+
+    def classes(f):
+        try:
+            r = f()
+        except Exception as e:  # noqa: BLE001
+            return {"exc": exc(e)[:4]}
+        out = {}
+        for o in r:
+            i = o.get("id") if isinstance(o, dict) or isinstance(o, _STIXBase) else None
+            out[i] = clsname(type(o)) if isinstance(o, _STIXBase) else ("dict" if isinstance(o, dict) else "other")
+        return out
+    got = {
+        "FileSystemSource.query()": classes(lambda: FileSystemSource(root).query()),
+        "FileSystemSource.query(type in ..)": classes(lambda: FileSystemSource(root).query([Filter("type", "in", types)])),
+        "FileSystemStore.query()": classes(lambda: FileSystemStore(root).query()),
+    }
+
+    def mem():
+        st = MemoryStore()
+        st.add([dict(js) for js in texts.values()])
+        return st.query()
+    got["MemoryStore.add(list)/query()"] = classes(mem)
+
+    def mem_file():
+        p = os.path.join(fresh_dir(), "b.json")
+        with io.open(p, "w", encoding="utf-8") as f:
+            json.dump({"type": "bundle", "id": BUNDLE_ID, "objects": list(texts.values())}, f)
+        st = MemoryStore()
+        st.load_from_file(p)
+        return st.query()
+    got["MemoryStore.load_from_file/query()"] = classes(mem_file)
+
+    def per_id():
+        src = FileSystemSource(root)
+        return [x for i in texts for x in src.all_versions(i)]
+    got["FileSystemSource.all_versions(each id)"] = classes(per_id)
+    return {"built": len(want), "want": want, "got": got, "dir_order": os.listdir(root)}
+
+
+OPS = {"mixed": op_mixed, "order": op_order, "registry": op_registry, "probe": op_probe, "detect": op_detect, "pick": op_pick,
        "idcheck": op_idcheck, "own": op_own, "bundle": op_bundle}
 
 try:
